@@ -209,3 +209,15 @@ Proof.
   destruct (unnamed_unhandled_exists sm au a s rk) as [p [Hp [Hu Hn]]].
   exists p. repeat split; try assumption; try lia. unfold fallback_v0. rewrite Hn. reflexivity.
 Qed.
+
+(* role-inappropriate types have no handler: a client (either transport class, any auth handler the client
+   side installs) for the client-to-server-only types, a classic server-mode Transport for the
+   server-to-client-only ones *)
+Lemma wrong_direction_client au a s rk :
+  a <> AHGss ->
+  forallb (unhandled (st_of false au a s rk)) client_to_server_only = true.
+Proof. intros Ha. destruct au, a, s, rk; try congruence; vm_compute; reflexivity. Qed.
+
+Lemma wrong_direction_server au a rk :
+  forallb (unhandled (st_of true au a false rk)) server_to_client_only = true.
+Proof. destruct au, a, rk; vm_compute; reflexivity. Qed.
